@@ -47,6 +47,9 @@ CONSTS = [
     # C03
     ("C03_MAX_LEN_BYTES", "src/multistream_select/length_delimited.rs", const("MAX_LEN_BYTES")),
     ("C03_MAX_PROTOCOLS", "src/multistream_select/protocol.rs", const("MAX_PROTOCOLS")),
+    # C16
+    ("KAD_READ_TIMEOUT_SECS", KAD + "executor.rs", r"const\s+READ_TIMEOUT\s*:[^=]+=\s*Duration::from_secs\(([^)]+)\)\s*;"),
+    ("KAD_WRITE_TIMEOUT_SECS", KAD + "executor.rs", r"const\s+WRITE_TIMEOUT\s*:[^=]+=\s*Duration::from_secs\(([^)]+)\)\s*;"),
     # C18
     ("MAX_INLINE_KEY_LENGTH", "src/peer_id.rs", const("MAX_INLINE_KEY_LENGTH")),
     ("MULTIHASH_IDENTITY_CODE", "src/peer_id.rs", const("MULTIHASH_IDENTITY_CODE")),
